@@ -6,14 +6,17 @@ GROUPS = [
     dict(name="fsg_search_lattice_cached", harness=H, entry="h_fsg_search_lattice_cached", enforce="fsg_search_lattice", allow_no_body=["*"], unwind=3, min_postconditions=1),
     dict(name="lattice_nodes", harness=H, entry="r_lattice_nodes", allow_no_body=["*"], unwind=6, replay=RL,
          bounded="<= 3 existing nodes with symbolic keys, one new_node / find_node query, two lattice_link calls on one node pair"),
+    dict(name="find_end_node_fallback", harness=H, entry="r_find_end_node", allow_no_body=["*"], unwind=6, extra_sources=["@src/glist.c"],
+         replay=dict(RL, name="find_end_node_replay", entry="r_find_end_node"),
+         bounded="<= 3 nodes with symbolic first/last end frames and entry flags, no word ending in the last frame"),
 ]
 ASSUMPTIONS = [
     "element allocators hand out fresh zeroed objects (stub)",
     "node lists of <= 3 nodes (linked lists cannot carry loop contracts in CBMC)",
 ]
 HAND_LEMMAS = ["acyclicity: every lattice_link call of fsg_search_lattice joins src to dest with dest->sf == ef + 1 > src->sf (NOT under contract here), so start frames strictly increase along links"]
-NOT_COVERED = ["the link-building loops of fsg_search_lattice (time adjacency t -> t+1, grammar adjacency of linked words)", "find_start_node / find_end_node (seeded change C11_B) and unreachable-node removal", "first-best path contained in the lattice", "single start / end node"]
+NOT_COVERED = ["the link-building loops of fsg_search_lattice (time adjacency t -> t+1, grammar adjacency of linked words)", "find_start_node, the multi-candidate branch of find_end_node, unreachable-node removal", "first-best path contained in the lattice", "single start / end node"]
 CLAIM = dict(
-    text="Local facts only: asking for the lattice again over the same number of frames returns the cached object and touches nothing (proved, empty frame); node identity is the full key (start frame, word, grammar state): new_node never duplicates a key, a differing grammar state gives a distinct node, an existing node only widens its end-frame range and keeps its best exit score; lattice_link keeps one link per ordered node pair with the best score in both forward and reverse lists (bounded: <= 3 nodes). Global well-formedness (acyclic, single start/end, every node on a path, grammar paths) is NOT decided.",
+    text="Local facts only: asking for the lattice again over the same number of frames returns the cached object and touches nothing (proved, empty frame); node identity is the full key (start frame, word, grammar state): new_node never duplicates a key, a differing grammar state gives a distinct node, an existing node only widens its end-frame range and keeps its best exit score; lattice_link keeps one link per ordered node pair with the best score in both forward and reverse lists (bounded: <= 3 nodes); when no word ends in the last frame the end node chosen is the node with entries that exits last (bounded). Global well-formedness (acyclic, single start/end, every node on a path, grammar paths) is NOT decided.",
     note="cache identity proof + bounded node/link checks; link-building loops, start/end node selection, reachability pruning not covered; trusted: CBMC 6.11",
     technique="CBMC function contract (goto-instrument --dfcc) for the cache clause; CBMC bounded unwinding with unwinding assertions for the list code")
